@@ -80,6 +80,47 @@ int main(void)
     a2.family = AF_UNSPEC;
     printf("ADDR_EQUAL_UNSPEC %d\n", ares_addr_equal(&a1, &a2) ? 1 : 0);
   }
+  {
+    /* does a reply with a valid server cookie move a *cleared* state (no client cookie in use) to SUPPORTED? */
+    static ares_server_t     srv;
+    ares_conn_t              conn;
+    ares_query_t             q;
+    ares_dns_record_t       *rq = NULL, *rp = NULL;
+    ares_dns_rr_t           *rr = NULL;
+    ares_array_t            *requeue = NULL;
+    ares_timeval_t           now;
+    static const unsigned char ck[16] = { 1, 2, 3, 4, 5, 6, 7, 8, 9, 10, 11, 12, 13, 14, 15, 16 };
+    memset(&srv, 0, sizeof(srv));
+    memset(&conn, 0, sizeof(conn));
+    memset(&q, 0, sizeof(q));
+    conn.server = &srv;
+    now.sec  = 1000;
+    now.usec = 1;
+    if (ares_dns_record_create(&rq, 1, ARES_FLAG_RD, ARES_OPCODE_QUERY, ARES_RCODE_NOERROR) != ARES_SUCCESS ||
+        ares_dns_record_rr_add(&rr, rq, ARES_SECTION_ADDITIONAL, "", ARES_REC_TYPE_OPT, ARES_CLASS_IN, 0) !=
+          ARES_SUCCESS ||
+        ares_dns_rr_set_opt(rr, ARES_RR_OPT_OPTIONS, ARES_OPT_PARAM_COOKIE, ck, 8) != ARES_SUCCESS ||
+        ares_dns_record_create(&rp, 1, ARES_FLAG_QR, ARES_OPCODE_QUERY, ARES_RCODE_NOERROR) != ARES_SUCCESS ||
+        ares_dns_record_rr_add(&rr, rp, ARES_SECTION_ADDITIONAL, "", ARES_REC_TYPE_OPT, ARES_CLASS_IN, 0) !=
+          ARES_SUCCESS ||
+        ares_dns_rr_set_opt(rr, ARES_RR_OPT_OPTIONS, ARES_OPT_PARAM_COOKIE, ck, 16) != ARES_SUCCESS) {
+      return 8;
+    }
+    q.query = rq;
+    srv.cookie.state = ARES_COOKIE_INITIAL;
+    if (ares_cookie_validate(&q, rp, &conn, &now, &requeue) != ARES_SUCCESS) {
+      return 8;
+    }
+    if (srv.cookie.state == ARES_COOKIE_SUPPORTED) {
+      printf("VALIDATE_LEARNS_WHEN_CLEARED 1\n");
+    } else if (srv.cookie.state == ARES_COOKIE_INITIAL) {
+      printf("VALIDATE_LEARNS_WHEN_CLEARED 0\n");
+    } else {
+      return 8;
+    }
+    ares_dns_record_destroy(rq);
+    ares_dns_record_destroy(rp);
+  }
   printf("REC_TYPE_OPT %lu\n", (unsigned long)ARES_REC_TYPE_OPT);
   printf("REC_TYPE_SOA %lu\n", (unsigned long)ARES_REC_TYPE_SOA);
   printf("REC_TYPE_SIG %lu\n", (unsigned long)ARES_REC_TYPE_SIG);
@@ -310,7 +351,7 @@ SCALARS = ["COOKIE_CLIENT_TIMEOUT_MS", "COOKIE_UNSUPPORTED_TIMEOUT_MS", "COOKIE_
            "COOKIE_RESEND_MAX", "COOKIE_CLIENT_LEN", "COOKIE_SERVER_MAX",
            "COOKIE_STATE_INITIAL", "COOKIE_STATE_GENERATED", "COOKIE_STATE_SUPPORTED", "COOKIE_STATE_UNSUPPORTED",
            "RCODE_NOERROR", "RCODE_NXDOMAIN", "RCODE_BADCOOKIE", "OPT_PARAM_COOKIE", "AF_INET_", "AF_INET6_",
-           "AF_UNSPEC_", "ADDR_EQUAL_UNSPEC",
+           "AF_UNSPEC_", "ADDR_EQUAL_UNSPEC", "VALIDATE_LEARNS_WHEN_CLEARED",
            "REC_TYPE_OPT", "REC_TYPE_SOA", "REC_TYPE_SIG", "REC_TYPE_RAW_RR",
            "SECTION_ANSWER", "SECTION_AUTHORITY", "SECTION_ADDITIONAL",
            "MIN_TIMEOUT_MS", "MAX_TIMEOUT_MS", "AVG_TIMEOUT_MULTIPLIER", "MIN_COUNT_FOR_AVERAGE",
@@ -382,6 +423,9 @@ def gen_proto_consts():
             L.append("/-- observed format of `ares_qcache_calc_key`: 0 = type/class mnemonics (`*_tostr`), 1 = numeric -/")
         if k == "ADDR_EQUAL_UNSPEC":
             L.append("/-- observed: `ares_addr_equal` (static, ares_cookie.c) on two AF_UNSPEC addresses -/")
+        if k == "VALIDATE_LEARNS_WHEN_CLEARED":
+            L.append("/-- observed: does `ares_cookie_validate` move a cleared state (INITIAL/UNSUPPORTED: no client cookie in use)")
+            L.append("    to SUPPORTED when a reply carries a server cookie (1, pinned tree) or leave it alone (0) -/")
         if k == "RR_GET_TTL_DECREMENTS":
             L.append("/-- observed: does `ares_dns_rr_get_ttl` subtract the record's `ttl_decrement` (1) or not (0) -/")
         L.append("def %s : Nat := %d" % (k.rstrip("_"), scal[k]))
